@@ -20,8 +20,10 @@ open Storage Xref
 
 variable {A R C I : Type}
 
-/-- **C10, /W**: `byte_len n` bytes hold `n` (and for `n ≥ 256` no fewer do): the column widths the
-    cross-reference stream announces are the exact number of base-256 digits of the largest field. -/
+/-- **C10, `byte_len`**: `byte_len n` bytes hold `n` (and for `n ≥ 256` no fewer do) — a statement about the function
+    `byteLen` alone. That the `/W` of a save *is* `byteLen` of the largest field of each column is `save_ok_widths`
+    (Lemmas/SaveShape.lean) and is used by `rows_fit_widths` below; the two together say that the widths announced are the
+    exact number of base-256 digits. -/
 theorem byteLen_bounds (n : Nat) :
     1 ≤ byteLen n ∧ n < 256 ^ byteLen n ∧ (256 ≤ n → 256 ^ (byteLen n - 1) ≤ n) :=
   ⟨byteLen_pos n, lt_pow_byteLen n, pow_byteLen_le n⟩
@@ -119,7 +121,8 @@ theorem build_reload (L : Layout) (cached : Bool) (pages : List (PageSpec A R C)
   exact facts.pending j v g (pf.ch_sup j _ hc) c
 
 /-- **C10, structural validity of the built file** (model level; the same facts are checked on the real
-    bytes by the independent reader): the header is at offset 0; `startxref` is the offset of a
+    bytes by the independent reader): the header is at offset 0; at offset `i.xpos` (the `SaveInfo` field the model
+    writes after `startxref`: that the *bytes* end with it is `build_bytes_valid`) stands a
     cross-reference section with `/Index [0 n]`, the rows of the theorem, `/Size` = `i.size`, no `/Prev`;
     `/Size` is above every row and above the number of every object in the file; row 0 is the head of
     the free list; every other row is in use, has generation 0 and is the offset of the record
@@ -238,10 +241,83 @@ theorem hinv_prepared (fmt : R → List UInt8) (env : Env R) (hd : env.decrypt =
     (buildOps pages) _ (hinv_base fmt env pfuel dec _ [] (baseOK_empty info _) (rep_empty _ info _))
     (goodHist_buildOps fmt env.parseReal pages hn hp _) hsmall hpf
 
+/-- a value within the limits of the round-trip theorems is accepted by the writer model -/
+theorem okVal_serialize (fmt : R → List UInt8) (pr : List UInt8 → Option R) (v : Prim R) (h : OKVal fmt pr v) :
+    (serialize fmt v).isOk = true := by
+  cases h with
+  | direct v hs _ _ =>
+    obtain ⟨txt, trail, h1, _⟩ := serialize_spells fmt pr v hs
+    rw [h1]; rfl
+  | stream info data hs _ _ _ _ =>
+    obtain ⟨txt, h1, _⟩ := serialize_stream_ok fmt pr info data hs
+    rw [h1]; rfl
+
+/-- **C10 at byte level, the builder's save succeeds**: for page payloads within the limits (`PageOK`, `OKVal` for the
+    info dictionary) and at most 333 331 pages (the reader's `MAX_ID` of 10⁶ numbers: three per page and five more),
+    `saveB` on the state the builder has prepared returns `Ok` — every pending value is accepted by the writer model, no
+    promise is open (every number `1 … 3n+2` has its value pending: `prepared_changes`), the catalog is pending under the
+    number the trailer names. So the hypothesis `hs` of `build_bytes_reload` / `build_bytes_pages` / `build_bytes_valid`
+    can always be discharged; `buildB` returns the bytes. (`typed = true`: the catalog the builder made loads as a
+    catalog — the typed readers are C15's.) -/
+theorem build_bytes_total (fmt : R → List UInt8) (env : Env R) (hd : env.decrypt = none) (pfuel : Nat)
+    (dec : Dict R → List UInt8 → Out (List UInt8)) (hdec : NoFilter dec) (pages : List (PageB R)) (info : Option (Prim R))
+    (hn : 3 * pages.length + 5 ≤ 1000000) (hp : ∀ p ∈ pages, PageOK fmt env.parseReal p)
+    (hinfo : ∀ v, info = some v → OKVal fmt env.parseReal v) (hpf : 27 ≤ pfuel) :
+    ∃ b' i, saveB fmt true (prepared fmt pages info) = (b', .ok i) ∧ buildB fmt pages info = .ok b'.bytes := by
+  have hb0 := baseOK_empty info pages.length
+  obtain ⟨hbytes, _, _, _, _⟩ := prepared_backend fmt pages info
+  have h1 := hinv_prepared fmt env hd pfuel dec hdec pages info (by omega) hp hinfo
+    (by rw [hbytes]; simp [headerBytes, fileMax]) (by rw [hbytes]; simp [headerBytes]; omega)
+  obtain ⟨hlen, c1, c2, c3⟩ := prepared_changes fmt pages info
+  have htr : (prepared fmt pages info).doc.tr = (emptyB info pages.length).doc.tr := h1.inv.tr_eq
+  have hsv : Savable (params fmt (prepared fmt pages info).ids) (prepared fmt pages info).doc := by
+    refine ⟨?_, ?_, ?_, ?_⟩
+    · unfold allOk
+      rw [List.all_eq_true]
+      intro c hc
+      obtain ⟨j, v, g⟩ := c
+      have hl := chLookup_of_mem_sorted _ h1.inv.sorted _ hc
+      exact okVal_serialize fmt env.parseReal v (h1.ch j v g hl)
+    · intro v hv
+      rw [htr] at hv
+      exact okVal_serialize fmt env.parseReal v (hinfo v hv)
+    · intro j hj hnone
+      have hjl : j < 3 * pages.length + 3 := by rw [← hlen]; exact (List.getElem?_eq_some_iff.mp hj).1
+      by_cases h0 : j = 0
+      · subst h0
+        have := h1.inv.refs_old 0 (by simp [emptyB]) hnone
+        rw [hj] at this; simp [emptyB] at this
+      by_cases hk : j ≤ pages.length
+      · obtain ⟨p, hp'⟩ : ∃ p, pages[j - 1]? = some p := ⟨pages[j - 1]'(by omega), by simp⟩
+        have := (c3 (j - 1) p hp').1
+        rw [show j - 1 + 1 = j by omega, hnone] at this; cases this
+      by_cases hk1 : j = pages.length + 1
+      · subst hk1; rw [hnone] at c2; cases c2
+      by_cases hk2 : j = 3 * pages.length + 2
+      · subst hk2; rw [hnone] at c1; cases c1
+      -- resources `n + 2 + 2k` or content `n + 3 + 2k`
+      have hk' : (j - pages.length - 2) / 2 < pages.length := by omega
+      obtain ⟨p, hp'⟩ : ∃ p, pages[(j - pages.length - 2) / 2]? = some p := ⟨pages[(j - pages.length - 2) / 2]'hk', by simp⟩
+      obtain ⟨_, d2, d3⟩ := c3 _ p hp'
+      by_cases hpar : (j - pages.length - 2) % 2 = 0
+      · rw [show pages.length + 2 + 2 * ((j - pages.length - 2) / 2) = j by omega, hnone] at d2; cases d2
+      · rw [show pages.length + 3 + 2 * ((j - pages.length - 2) / 2) = j by omega, hnone] at d3; cases d3
+    · refine ⟨catalogVal (pages.length + 1), ?_⟩
+      rw [htr]
+      exact resolve_changed _ _ _ 0 c1
+  obtain ⟨d', i, hs⟩ := save_succeeds _ (layoutOf fmt true (prepared fmt pages info)) (layoutOf_pos fmt true _) rfl
+    _ _ [] hb0 h1.inv hsv (by rw [hlen]; unfold MAX_ID; omega)
+  have h2 : (saveB fmt true (prepared fmt pages info)).2 = .ok i := by
+    unfold saveB; simp only [hs]; split <;> rfl
+  refine ⟨(saveB fmt true (prepared fmt pages info)).1, i, by rw [← h2], ?_⟩
+  unfold buildB
+  rw [show saveB fmt true (prepared fmt pages info) = ((saveB fmt true (prepared fmt pages info)).1, .ok i) from by rw [← h2]]
+
 /-- **C10 at byte level, reload.** The file `PdfBuilder::build` returns opens through the byte-level open path
     (header at 0, table of `/Size + 1` slots from the cross-reference stream), and every object the builder wrote —
     catalog, page tree, leaves, resources, content streams, the info dictionary — is read back by the byte-level
-    resolver with the value written (streams: same dictionary, a `file_range` covering exactly the data). -/
+    resolver with the value written (streams: same dictionary, a `file_range` covering exactly the data).
+    (`hs`: the save succeeded — always the case for these inputs up to 333 331 pages: `build_bytes_total`.) -/
 theorem build_bytes_reload (fmt : R → List UInt8) (env : Env R) (hd : env.decrypt = none) (pfuel : Nat)
     (dec : Dict R → List UInt8 → Out (List UInt8)) (hdec : NoFilter dec) (pages : List (PageB R)) (info : Option (Prim R))
     (hn : pages.length ≤ 1000000) (hp : ∀ p ∈ pages, PageOK fmt env.parseReal p)
@@ -291,11 +367,37 @@ theorem build_bytes_pages (fmt : R → List UInt8) (env : Env R) (hd : env.decry
   have hb0 := baseOK_empty info pages.length
   have h1 := hinv_prepared fmt env hd pfuel dec hdec pages info hn hp hinfo (by omega) (by omega)
   have pf := prep_facts _ (prepared fmt pages info).doc [] hb0 h1.inv
-  obtain ⟨c1, c2, c3⟩ := prepared_changes fmt pages info
+  obtain ⟨_, c1, c2, c3⟩ := prepared_changes fmt pages info
   obtain ⟨_, t, T, hopen, _, hroot, hres⟩ := build_bytes_reload fmt env hd pfuel dec hdec pages info hn hp hinfo b' i hs hsmall hpf rfuel
   refine ⟨t, T, hopen, hroot, hres _ _ _ (pf.ch_sup _ _ c1), hres _ _ _ (pf.ch_sup _ _ c2), fun k p hk => ?_⟩
   obtain ⟨d1, d2, d3⟩ := c3 k p hk
   exact ⟨hres _ _ _ (pf.ch_sup _ _ d1), hres _ _ _ (pf.ch_sup _ _ d2), hres _ _ _ (pf.ch_sup _ _ d3)⟩
+
+/-- **C10 at byte level, end to end without assuming that the save succeeds**: for payloads within the limits the
+    builder returns a file (`build_bytes_total`), and — provided that file is below 2³¹ bytes and the parser fuel at least
+    three times its length — reading it back gives the pages that went in (`build_bytes_pages`). -/
+theorem build_bytes_pages_total (fmt : R → List UInt8) (env : Env R) (hd : env.decrypt = none) (pfuel : Nat)
+    (dec : Dict R → List UInt8 → Out (List UInt8)) (hdec : NoFilter dec) (pages : List (PageB R)) (info : Option (Prim R))
+    (hn : 3 * pages.length + 5 ≤ 1000000) (hp : ∀ p ∈ pages, PageOK fmt env.parseReal p)
+    (hinfo : ∀ v, info = some v → OKVal fmt env.parseReal v) (hpf0 : 27 ≤ pfuel) :
+    ∃ bytes, buildB fmt pages info = .ok bytes ∧
+      (bytes.length ≤ fileMax → 3 * bytes.length ≤ pfuel → ∀ rfuel,
+        ∃ t T, openB env pfuel dec 2 bytes = .ok (0, t, T) ∧
+          dictGet T kRoot = some (.ref (3 * pages.length + 2) 0) ∧
+          (∃ o, resolveB env pfuel dec (rfuel + 2) bytes 0 t (3 * pages.length + 2) = .ok o ∧
+            Denotes bytes o (catalogVal (pages.length + 1))) ∧
+          (∃ o, resolveB env pfuel dec (rfuel + 2) bytes 0 t (pages.length + 1) = .ok o ∧
+            Denotes bytes o (treeVal (List.range' 1 pages.length))) ∧
+          ∀ k p, pages[k]? = some p →
+            (∃ o, resolveB env pfuel dec (rfuel + 2) bytes 0 t (k + 1) = .ok o ∧
+              Denotes bytes o (pageVal (pages.length + 1) (pages.length + 2 + 2 * k) (pages.length + 3 + 2 * k) p)) ∧
+            (∃ o, resolveB env pfuel dec (rfuel + 2) bytes 0 t (pages.length + 2 + 2 * k) = .ok o ∧ Denotes bytes o p.res) ∧
+            (∃ o, resolveB env pfuel dec (rfuel + 2) bytes 0 t (pages.length + 3 + 2 * k) = .ok o ∧
+              Denotes bytes o (contentVal p.content))) := by
+  obtain ⟨b', i, hs, hbuild⟩ := build_bytes_total fmt env hd pfuel dec hdec pages info hn hp hinfo hpf0
+  refine ⟨b'.bytes, hbuild, ?_⟩
+  intro hsmall hpf rfuel
+  exact build_bytes_pages fmt env hd pfuel dec hdec pages info (by omega) hp hinfo b' i hs hsmall hpf rfuel
 
 /-- **C10 at byte level, structural validity** of the file `PdfBuilder::build` returns, as statements about its bytes:
     * it is the header line followed by one revision;
@@ -304,7 +406,7 @@ theorem build_bytes_pages (fmt : R → List UInt8) (env : Env R) (hd : env.decry
     * the file ends with `startxref`, the offset of the cross-reference stream object and `%%EOF`; that object stands
       at this offset and its dictionary announces `/Size`, the `/Length` of the rows' bytes and `/Root`;
     * every stream the builder wrote carries a `/Length` equal to the number of bytes between `stream\n` and
-      `\nendstream`. -/
+      `\nendstream` of the record that the stream's own cross-reference row points at (`off`). -/
 theorem build_bytes_valid (fmt : R → List UInt8) (env : Env R) (hd : env.decrypt = none) (pfuel : Nat)
     (dec : Dict R → List UInt8 → Out (List UInt8)) (hdec : NoFilter dec) (pages : List (PageB R)) (info : Option (Prim R))
     (hn : pages.length ≤ 1000000) (hp : ∀ p ∈ pages, PageOK fmt env.parseReal p)
@@ -323,7 +425,8 @@ theorem build_bytes_valid (fmt : R → List UInt8) (env : Env R) (hd : env.decry
     (∀ j info' data g,
       chLookup (prep (prepared fmt pages info).doc).st2.changes j = some (.stream info' (.pending data), g) →
       dictGet info' kwLength = some (.int (data.length : Int)) ∧
-      ∃ off txt rest, SpellsStream env.parseReal info' data txt ∧ b'.bytes.drop off = objFrame j g (txt ++ [10]) ++ rest) := by
+      ∃ off txt rest, i.rows[j]? = some (.raw off g) ∧ SpellsStream env.parseReal info' data txt ∧
+        b'.bytes.drop off = objFrame j g (txt ++ [10]) ++ rest) := by
   have hmono : (prepared fmt pages info).bytes.length ≤ b'.bytes.length := by
     rw [(saveB_ok_iff fmt true _ _ i hs).2.2]; simp
   have hb0 := baseOK_empty info pages.length
@@ -401,12 +504,13 @@ theorem build_bytes_valid (fmt : R → List UInt8) (env : Env R) (hd : env.decry
     | direct v hsr _ _ => rw [← hov] at hsr; exact absurd hsr (by simp [Serialisable])
     | stream info2 data2 hs2 _ _ hl2 _ =>
       cases hov
-      obtain ⟨off, rest, body, _, _, hser, hdrop⟩ := sb.frames j _ g hc
+      obtain ⟨off, rest, body, _, hrow, hser, hdrop⟩ := sb.frames j _ g hc
+      rw [hstart, Nat.sub_zero] at hrow
       obtain ⟨txt, hser2, hsp⟩ := serialize_stream_ok fmt env.parseReal info' data hs2
       rw [hser2] at hser
       simp only [Out.ok.injEq] at hser
       subst hser
-      exact ⟨hl2, off, txt, rest, hsp, hdrop⟩
+      exact ⟨hl2, off, txt, rest, hrow, hsp, hdrop⟩
 
 /-! ### Non-vacuity: a one-page document, built, opened and resolved by the model inside the kernel -/
 
